@@ -10,11 +10,12 @@ SplitLines(s, cur, acc) == IF s = <<>> THEN acc
                            ELSE SplitLines(Tail(s), Append(cur, Head(s)), acc)
 Complete(s) == SplitLines(s, <<>>, <<>>)
 \* ---- Level A -------------------------------------------------------------------------------
-Expected == SelectSeq(Complete(Stream), LAMBDA ln : Len(ln) >= 3)
+\* (a line with a stray byte is not well formed: it is skipped, whole)
+Expected == SelectSeq(Complete(Stream), LAMBDA ln : Len(ln) >= 3 /\ ~HasStray(ln))
 ExactlyOnceInOrder == IsPrefix(processed, Expected)
 \* at quiescence everything has been processed
 Quiescent == sent = Len(Stream) /\ avail = <<>> /\ pc = "read" /\ NLIdx(input) = 0
-AllProcessed == (Quiescent /\ ~crashed) => processed = SelectSeq(Complete(Stream), LAMBDA ln : Len(ln) >= 3)
+AllProcessed == (Quiescent /\ ~crashed) => processed = Expected
 LevelA == NoCrash /\ ExactlyOnceInOrder /\ AllProcessed
 \* liveness: if server and client keep taking their steps, every complete line ends up processed, and stays so
 FairSpec == Spec /\ WF_vars(Send) /\ WF_vars(ReadLine) /\ WF_vars(Process)
